@@ -15,8 +15,22 @@ def run(chk, repo, tier):
                        "SkToPk / PopProve / Aggregate written as terms; the byte encoders are reduced to I2OSP terms.")
     chk.rule("C09.R1", "suite identifiers equal draft-irtf-cfrg-bls-signature-04 §4.2; hash is SHA-256", 4 + 3)
     chk.rule("C09.R2", "output terms of SkToPk / Sign / PopProve / Aggregate and the two byte encoders equal the draft's", 2 + 3 + 3 + 1 + 3)
-    chk.not_decided += ["numerical value of the terms: that compress/hash_to_G2/multiply compute what they denote (C11, C10, C07)"]
+    chk.rule("C09.R3", "hash_to_G2 — the one component of the output terms that is itself specified byte for byte (RFC 9380 suite "
+                       "BLS12381G2_XMD:SHA-256_SSWU_RO_) — is as C10 requires: C10's obligations re-stated", 60)
+    chk.not_decided += ["numerical value of the terms: that compress/multiply compute what they denote (C11, C07)"]
     chk.depends_on += ["C07", "C10", "C11"]
+    from . import C10
+    from ..report import SubCheck
+    sub = SubCheck()
+    err = None
+    try:
+        C10.run(sub, repo, tier)
+    except AnalysisError as e:
+        err = e
+    for rule, construct, key, ok, detail, where in sub.obs:
+        chk.ob("C09.R3", construct, f"hash_to_G2 [{rule}] {key}", ok, detail, where)
+    if err is not None and all(o[3] for o in sub.obs):
+        raise err
     M = Model(repo, "P")
     it = Interp(M.world)
     tags = tags_of(M, repo)
